@@ -161,6 +161,21 @@ pub fn run(case: &Value, _seed: u64) -> Outcome {
         let full = render_para(role, &all, false, 1);
         shipped_by_role(&mut o, role, &ptext, &full, &feats);
     }
+    // DEP-3 mail-style aliases: From / Subject stand in for Author / Description only when those are absent; with
+    // both present the typed value must carry what the lossless view's accessors show
+    if kind == "dep3" && case["ok"].as_bool() == Some(true) {
+        let t2 = format!("{}From: Git Committer <c@example.com>\nSubject: a mail subject\n", render(case));
+        o.evals += 1;
+        let r = guarded("dep3 lossy vs lossless (aliases)", || {
+            let ly = dep3::lossy::PatchHeader::from_str(&t2).map_err(|e| format!("lossy rejected: {}", e))?;
+            let ll = dep3::lossless::PatchHeader::from_str(&t2).map_err(|e| format!("lossless rejected: {:?}", e))?;
+            if ly.author != ll.author() { return Err(format!("author: lossy {:?}, lossless {:?}", ly.author, ll.author())); }
+            let ld = ly.description.as_deref().map(|d| d.split('\n').next().unwrap_or("").to_string());
+            if ld != ll.description() { return Err(format!("description: lossy {:?}, lossless {:?}", ld, ll.description())); }
+            Ok(())
+        });
+        match r { Ok(Ok(())) => {} Ok(Err(m)) => o.v("C20", "matches_lossless", "lossy dep3::from_str", "mismatch", &feats, &t2, m), Err(m) => o.v("C20", "total", "lossy dep3::from_str", "panic", &feats, &t2, m) }
+    }
     o.evals += 1;
     let api = format!("lossy {}::from_str", kind);
     let r = match guarded(&api, || parse_print(kind, &text)) { Ok(r) => r, Err(m) => { o.v("C20", "total", &api, "panic", &feats, &text, m.clone()); o.v("C02", "total", &api, "panic", &feats, &text, m); return o; } };
